@@ -142,12 +142,37 @@ func (e *Engine) smtText(o *Obligation, wantModel bool) string {
 			}
 		}
 	}
+	// defined functions are inlined by the solvers: a pattern mentioning one matches on the symbols of its body
+	defBody := map[string][]string{}
+	for _, d := range decls {
+		if strings.HasPrefix(d.text, "(define-fun ") && len(d.declares) == 1 {
+			var body []string
+			for _, t := range d.uses {
+				if t != d.declares[0] && !strings.HasPrefix(t, "a_") {
+					body = append(body, t)
+				}
+			}
+			defBody[d.declares[0]] = body
+		}
+	}
+	var expandDef func(ts []string, depth int) []string
+	expandDef = func(ts []string, depth int) []string {
+		var out []string
+		for _, t := range ts {
+			if b, ok := defBody[t]; ok && depth < 5 {
+				out = append(out, expandDef(b, depth+1)...)
+			} else {
+				out = append(out, t)
+			}
+		}
+		return out
+	}
 	var axioms []axiomCmd
 	addAx := func(text string) {
 		a := axiomCmd{text: text, uses: tokens(text)}
 		a.patterns = patternSyms(text)
-		for _, p := range a.patterns {
-			_ = p
+		for i, p := range a.patterns {
+			a.patterns[i] = expandDef(p, 0)
 		}
 		for _, t := range a.uses {
 			if declared[t] && !datatypeSym[t] {
